@@ -15,7 +15,7 @@ use crate::classic::clvm_tools::stages::stage_2::operators::run_program_for_sear
 
 use crate::classic::platform::distutils::dep_util::newer;
 
-use crate::compiler::clvm::convert_to_clvm_rs;
+use crate::compiler::clvm::{convert_to_clvm_rs, NewStyleIntConversion};
 use crate::compiler::compiler::compile_file;
 use crate::compiler::compiler::DefaultCompilerOpts;
 use crate::compiler::comptypes::{CompileErr, CompilerOpts};
@@ -113,6 +113,11 @@ pub fn compile_clvm_text_maybe_opt(
             .set_frontend_opt(stepping == 22);
 
         let unopt_res = compile_file(allocator, runner.clone(), opts.clone(), text, symbol_table)?;
+        // compile_file's integer conversion guard is gone by now, so the steps
+        // below have always run in the default mode.  Pin it, so the emitted
+        // bytes don't depend on a mode left set by a caller or by a compilation
+        // this one is nested in.
+        let _int_conversion_mode = NewStyleIntConversion::new(true);
         let res = maybe_finalize_program_via_classic_optimizer(
             allocator,
             runner,
